@@ -24,7 +24,7 @@ F4 = ("lower_bound treats the element value -2147483648 as 'unbound': a lookup b
 
 
 def quick(seed):
-    runs = [("rnd%d" % i, ["--seed", str(seed * 64 + i + 1), "--cases", "1500"]) for i in range(12)]
+    runs = [("rnd%d" % i, ["--seed", str(seed * 64 + i + 1), "--cases", "2500"]) for i in range(12)]
     runs += [("probe", ["--mode", "probe"]),
              ("dfs_eq_2x1_b1", ["--mode", "dfs", "--vals", "0,1,2,3", "--setup", "0,1", "--threads", "2", "--bound", "1"]),
              ("dfs_piggy_3x2_b3", ["--mode", "dfs", "--piggy", "1", "--bits", "0", "--threads", "3", "--ops", "2", "--bound", "3"])]
@@ -32,7 +32,7 @@ def quick(seed):
 
 
 def thorough(seed):
-    runs = [("rnd%d" % i, ["--seed", str(seed * 64 + i + 1), "--cases", "40000", "--size", "60"]) for i in range(12)]
+    runs = [("rnd%d" % i, ["--seed", str(seed * 64 + i + 1), "--cases", "60000", "--size", "60"]) for i in range(12)]
     runs += [("probe", ["--mode", "probe"]),
              ("dfs_eq_2x1_b2", ["--mode", "dfs", "--vals", "0,1,2,3", "--setup", "0,1", "--threads", "2", "--bound", "2", "--max", "6000000"]),
              ("dfs_eq2_2x1_b2", ["--mode", "dfs", "--vals", "0,1,2,3", "--setup", "0,1,2,3", "--threads", "2", "--bound", "2", "--max", "6000000"]),
